@@ -569,3 +569,40 @@ def join_visitor(M: Model, op: str, operands: List[Tuple[str, MDS, Optional[str]
     except Raised as r:
         return "raise", getattr(r.exc, "code", None) or getattr(r.exc, "kind", None)
     return "ok", res
+
+
+# ---------------------------------------------------------------------------------------------------------------
+# real repository classes as objects of the evaluator: a dataclass is instantiated from its field defaults and its methods are
+# the repository's (E6 dispatches through `_e6_class`)
+def instantiate(M: Model, cq: str) -> Any:
+    ci = M.P.classes.get(cq)
+    if ci is None:
+        raise AnalysisError(f"class {cq} not found")
+    obj = type("E6_" + cq.split(".")[-1], (), {"_e6_class": cq})()
+    for st in ci.node.body:
+        if isinstance(st, ast.AnnAssign) and isinstance(st.target, ast.Name):
+            v = st.value
+            if v is None:
+                continue
+            if isinstance(v, ast.Constant):
+                setattr(obj, st.target.id, v.value)
+            elif isinstance(v, ast.Call) and getattr(v.func, "id", "") == "field":
+                kw = {k.arg: k.value for k in v.keywords}
+                df = kw.get("default_factory")
+                if isinstance(df, ast.Name) and df.id in ("list", "dict", "set"):
+                    setattr(obj, st.target.id, {"list": list, "dict": dict, "set": set}[df.id]())
+                elif "default" in kw and isinstance(kw["default"], ast.Constant):
+                    setattr(obj, st.target.id, kw["default"].value)
+                else:
+                    raise AnalysisError(f"{cq}.{st.target.id}: field default not modelled")
+            else:
+                raise AnalysisError(f"{cq}.{st.target.id}: default `{ast.unparse(v)}` not modelled")
+    return obj
+
+
+def call_method(M: Model, obj: Any, name: str, *args: Any, **kwargs: Any) -> Any:
+    ci = M.P.classes[obj._e6_class]
+    mm = M.P.lookup_method(ci, name)
+    if mm is None:
+        raise AnalysisError(f"{obj._e6_class} has no method {name}")
+    return Interp(M.P, externals={"isinstance": _isinstance})._call_method(mm, obj, list(args), dict(kwargs))
